@@ -78,6 +78,10 @@ def decorate(m, n, rng):
     m.add_variable('_hidden', np.arange(n) * -1.0)
     m.add_variable('_k', np.arange(n), dtype=int)
     m.add_variable('F2', 0.25)
+    # an internal variable whose name shadows the private storage of a public one ('_Y' next to 'Y')
+    first = m.names[0]
+    if not first.startswith('_') and '_' + first not in m.names:
+        m.add_variable('_' + first, np.arange(n) * 3.25 - 1000)
 
 
 def one_model(ctx, script, spec, rng, solved):
